@@ -16,7 +16,9 @@ import (
 	"net/url"
 	"os"
 	"path/filepath"
+	"regexp"
 	"sort"
+	"strconv"
 	"strings"
 	"sync"
 	"time"
@@ -33,6 +35,7 @@ type psReq struct {
 	Accept    string `json:"accept"`
 	Ext       string `json:"ext"`
 	Cond      bool   `json:"cond"`
+	Area      string `json:"area"`
 }
 
 type psOutcome struct {
@@ -40,6 +43,8 @@ type psOutcome struct {
 	Cond   bool   `json:"cond"`
 	Status int    `json:"status"`
 	Body   string `json:"body"`
+	// Option: the cosmetic option the injected tag names (0: no tag)
+	Option int `json:"option"`
 }
 
 type psExp struct {
@@ -116,6 +121,8 @@ func newPsEnv(blocked []string, docExc bool) (*psEnv, error) {
 	if docExc {
 		lines = append(lines, "@@||localhost^$document")
 	}
+	// one part of the site has an element-hiding exception of its own: its pages get scripts only (option 4)
+	lines = append(lines, "@@||localhost*/nocss/$elemhide")
 	lines = append(lines, "localhost##.ad-banner", "##.generic-ad", "||never.matches.example^")
 	fp := filepath.Join(e.dir, "filter.txt")
 	if err = os.WriteFile(fp, []byte(strings.Join(lines, "\n")+"\n"), 0o600); err != nil {
@@ -164,7 +171,11 @@ func (e *psEnv) exchange(q psReq, ct string) (got psOutcome, detail string, err 
 	id := fmt.Sprintf("x%d", e.seq)
 	e.mu.Unlock()
 	port := e.originLn.Addr().(*net.TCPAddr).Port
-	u := fmt.Sprintf("http://localhost:%d/p/file%s?id=%s&ct=%s", port, psExt[q.Ext], id, ct)
+	dir := "p"
+	if q.Area == "nocss" {
+		dir = "nocss"
+	}
+	u := fmt.Sprintf("http://localhost:%d/%s/file%s?id=%s&ct=%s", port, dir, psExt[q.Ext], id, ct)
 	r, err := http.NewRequest(http.MethodGet, u, nil)
 	if err != nil {
 		return got, "", err
@@ -210,7 +221,10 @@ func (e *psEnv) exchange(q psReq, ct string) (got psOutcome, detail string, err 
 		got.Body = "origin"
 	case inserted != "":
 		got.Body = "filtered"
-		for _, need := range []string{"<script", "</script>", "content-script.js", "hostname=localhost", "option=7",
+		if mo := psOptionRe.FindStringSubmatch(inserted); mo != nil {
+			got.Option, _ = strconv.Atoi(mo[1])
+		}
+		for _, need := range []string{"<script", "</script>", "content-script.js", "hostname=localhost", "option=",
 			fmt.Sprintf("ts=%d", e.srv.VerifCreatedAt().Unix())} {
 			if !strings.Contains(inserted, need) {
 				got.Body = "filtered, but the inserted text lacks " + need
@@ -235,6 +249,8 @@ func (e *psEnv) exchange(q psReq, ct string) (got psOutcome, detail string, err 
 	}
 	return got, detail, nil
 }
+
+var psOptionRe = regexp.MustCompile(`[?&]option=(\d+)`)
 
 func psConfig(m map[string]string) (blocked []string, docExc bool) {
 	if m["blocked"] != "" {
@@ -403,7 +419,8 @@ func cmdDriveSession(args []string) error {
 		}()
 	}
 	for i := 0; i < n; i++ {
-		q := psReq{Upgrade: "none", Ping: rnd.Intn(8) == 0, FetchDest: pick(psFetchDest), Accept: pick(psAccept), Ext: pick(psExt), Cond: rnd.Intn(2) == 0}
+		q := psReq{Upgrade: "none", Ping: rnd.Intn(8) == 0, FetchDest: pick(psFetchDest), Accept: pick(psAccept), Ext: pick(psExt), Cond: rnd.Intn(2) == 0,
+			Area: []string{"main", "main", "nocss"}[rnd.Intn(3)]}
 		if rnd.Intn(2) == 0 {
 			q.FetchDest = []string{"none", "embed", "bogus"}[rnd.Intn(3)]
 		}
